@@ -382,6 +382,7 @@ class Evaluator:
         s.assume_finite = True             # np.isfinite(x) folds to True (recorded by the rules as an assumption)
         s.raises: list = []                # pruned raise branches: guard, polarity, exception name, path condition
         s._pc: list = []
+        s.atom_types: dict = {}            # atom name -> builtin type name of the value it stands for (decides isinstance tests on inputs)
         s.raise_lookup_errors = False      # True: a decidable KeyError outside any try ends the evaluation (RAISE) instead of yielding an opaque value
         s.inline_str_classes: set = set()    # classes whose __str__ is unfolded when an instance is formatted (default: str(obj) stays a symbolic part)
         s.inline_self_methods: set = set()   # public methods of the class under analysis that are inlined as well (by default only private helpers are)
@@ -397,7 +398,7 @@ class Evaluator:
     def fresh(s):
         """evaluator with the same configuration but none of the facts / stores learnt while evaluating code (used for specifications)"""
         e = Evaluator(s.prog, s.real, s._init_facts, s.depth_limit)
-        e.opaque_fns = set(s.opaque_fns); e.opaque_classes = set(s.opaque_classes); e.self_class = s.self_class; e.self_atom = s.self_atom; e.integer = set(s.integer); e.mod_facts = dict(s.mod_facts); e.assume_finite = s.assume_finite; e.atom_methods = dict(s.atom_methods); e.inline_self_methods = set(s.inline_self_methods)
+        e.opaque_fns = set(s.opaque_fns); e.opaque_classes = set(s.opaque_classes); e.self_class = s.self_class; e.self_atom = s.self_atom; e.integer = set(s.integer); e.mod_facts = dict(s.mod_facts); e.assume_finite = s.assume_finite; e.atom_methods = dict(s.atom_methods); e.inline_self_methods = set(s.inline_self_methods); e.atom_types = dict(s.atom_types)
         return e
 
     def learn(s, g, polarity: bool, exc=None, top=True):
@@ -806,6 +807,10 @@ class Evaluator:
     def e_List(s, e, env, mod, depth):
         r = list(s.e_Tuple(e, env, mod, depth))
         if len(r) == 1 and isinstance(r[0], Opq) and r[0].k and r[0].k[0] == '*' and len(e.elts) == 1: return s.builtin('list', [r[0].k[1]], {}, mod, depth)   # [*x] == list(x)
+        if len(r) > 1 and all(isinstance(x, Opq) and x.k and x.k[0] == '*' for x in r) and all(isinstance(x, ast.Starred) for x in e.elts):
+            out_ = r[0].k[1]
+            for x in r[1:]: out_ = s._binop(ast.Add(), out_ if not isinstance(out_, Poly) else out_, x.k[1])       # [*a, *b] == a + b for lists
+            if isinstance(out_, Opq) and out_.k and out_.k[0] == 'concat': return out_
         return r
 
     def e_Set(s, e, env, mod, depth):
@@ -899,6 +904,8 @@ class Evaluator:
                 if out is not None:
                     if kind == 'dict':
                         if all(isinstance(k, (str, int, bool)) or k is None for k, _ in out): return {k: v for k, v in out}
+                        if all(isinstance(k, (str, int, bool)) or k is None or (isinstance(k, Poly) and k.is_const()) for k, _ in out):
+                            return {(k if not isinstance(k, Poly) else _HK(k)): v for k, v in out}
                     else:
                         return out if kind in ('list', 'gen') else Opq('set', *out)
             depth_id = len(gens)
@@ -1314,6 +1321,11 @@ class Evaluator:
                 actual = ('dict' if isinstance(a, dict) else 'list' if isinstance(a, list) else 'tuple' if isinstance(a, tuple) else
                           'str' if isinstance(a, str) else 'bool' if isinstance(a, bool) else None)
                 if actual is not None: return actual in names or (actual == 'bool' and 'int' in names)
+                at_ = a.as_atom() if isinstance(a, Poly) else None
+                if isinstance(at_, str) and at_ in s.atom_types:
+                    # an input declared to be a number of the given builtin type (complex / float / int)
+                    t_ = s.atom_types[at_]
+                    return t_ in names or (t_ == 'bool' and 'int' in names)
             return Opq('isinstance', *args)
         if name == 'isinstance': return Opq('isinstance', *args)
         if name == 'type' and len(args) == 1:
@@ -1321,6 +1333,9 @@ class Evaluator:
             return Opq('type', a)
         if name == 'sorted' and len(args) == 1 and not kw and isinstance(a, (list, tuple)) and all(isinstance(x, str) for x in a):
             return sorted(a)
+        if name in ('sorted', 'list', 'tuple', 'set') and len(args) == 1 and not kw and isinstance(a, dict) and all(isinstance(x, str) for x in a):
+            ks_ = sorted(a) if name == 'sorted' else list(a)
+            return ks_ if name != 'set' else Opq('set', *ks_)
         if name in ('any', 'all', 'sum', 'min', 'max', 'sorted', 'tuple') and args and isinstance(args[0], Comp) and args[0].kind == 'gen':
             args = [Comp(args[0].elt, args[0].gens, 'list')] + list(args[1:])          # a generator argument is consumed like the list
             a = args[0]
@@ -1342,6 +1357,8 @@ class Evaluator:
         if name == 'dict' and len(args) == 1 and not kw and isinstance(a, Comp) and a.kind in ('list', 'gen') and isinstance(a.elt, (tuple, list)) and len(a.elt) == 2:
             return Comp(tuple(a.elt), a.gens, 'dict')
         if name == 'zip' and set(kw) <= {'strict'}: kw = {}                  # strict only adds a length check
+        if name == 'enumerate' and len(args) == 1 and isinstance(a, (list, tuple)) and (not kw or (set(kw) == {'start'} and isinstance(kw['start'], Poly) and kw['start'].is_zero())):
+            return [(Poly.const(i_), x_) for i_, x_ in enumerate(a)]
         if name == 'enumerate' and kw.get('start') is not None and isinstance(kw['start'], Poly) and kw['start'].is_zero(): kw = {}
         if name == 'filter' and len(args) == 2 and not kw and isinstance(args[0], (Closure, Ref)):
             # filter(f, xs) == [x for x in xs if f(x)]
@@ -1660,11 +1677,26 @@ class Evaluator:
                 env[st.name] = fv_
             elif isinstance(st, ast.Expr):
                 if s.expr_stmt(st.value, env, mod, depth) is RAISE: return RAISE        # a helper that raises on every path (a validation routine)
+            elif isinstance(st, ast.Delete):
+                for tg in st.targets:
+                    if isinstance(tg, ast.Subscript) and isinstance(tg.value, ast.Name):
+                        cur_ = s.lookup(tg.value.id, env, mod)
+                        k_ = s.ev(tg.slice, env, mod, depth) if not isinstance(tg.slice, ast.Slice) else None
+                        if isinstance(cur_, dict) and isinstance(k_, str) and k_ in cur_: del cur_[k_]; continue
+                        if isinstance(cur_, list) and isinstance(k_, Poly) and k_.real_const() is not None and -len(cur_) <= int(k_.real_const()) < len(cur_):
+                            s.rebind(tg.value.id, [x for i_, x in enumerate(cur_) if i_ != int(k_.real_const()) % len(cur_)], env); continue
+                        at_ = k_.as_atom() if isinstance(k_, Poly) else None
+                        if isinstance(at_, tuple) and at_[:1] == ('call',) and isinstance(at_[1], tuple) and at_[1][:1] == ('.',) and at_[1][2] == 'index' and at_[1][1] == atomname(cur_) and len(at_[2]) == 1:
+                            # del L[L.index(x)]  ==  L.remove(x)
+                            x_ = term_from_key(at_[2][0])
+                            s.mutations.append((tg.value.id, 'remove', [x_]))
+                            s.rebind(tg.value.id, Opq('mutated', 'remove', cur_, x_ if x_ is not None else Opq('?', 'del')), env); continue
+                        s.rebind(tg.value.id, Opq('mutated', 'del', cur_, k_), env)
             elif isinstance(st, ast.Pass) and getattr(st, '_try_end', False):
                 mk = getattr(s, '_try_markers', {}).get(id(st))
                 if mk is not None and not mk[0]:
                     mk[0] = True; s._try_depth -= 1        # the try body is over: its handlers are disarmed
-            elif isinstance(st, (ast.Pass, ast.Import, ast.ImportFrom, ast.Global, ast.Nonlocal, ast.Assert, ast.Delete, ast.ClassDef)):
+            elif isinstance(st, (ast.Pass, ast.Import, ast.ImportFrom, ast.Global, ast.Nonlocal, ast.Assert, ast.ClassDef)):
                 if isinstance(st, ast.ImportFrom):
                     # function-local import: bind through a temporary module view
                     tmp = Module(mod.name, mod.rel, mod.path, ast.Module(body=[st], type_ignores=[]), '', mod.is_pkg)
@@ -2022,6 +2054,7 @@ class Evaluator:
             base = s.ev(t.value, env, mod, depth)
             k = s.ev(t.slice, env, mod, depth) if not isinstance(t.slice, ast.Slice) else None
             if isinstance(base, dict) and isinstance(k, str): base[k] = val
+            elif isinstance(base, dict) and isinstance(k, Poly) and k.is_const() and all(not isinstance(x, Opq) for x in base): base[_HK(k)] = val
             elif isinstance(base, Poly) and base.as_atom() is not None and isinstance(k, (str, int)) and not isinstance(k, bool):
                 s.stores[(base.as_atom(), ('[]', k))] = val
                 s.mutations.append((ast.unparse(t.value), '__setitem__', [k, val]))
